@@ -125,15 +125,21 @@ def gen_scenario(r, i):
     for k in range(ntops):
         tops.append(g.load(0, fail_bias=r.chance(0.65)))
     classes, shape = r.choice(CLASS_SETS), r.choice(SHAPES)
-    if "Model" in classes and shape in ("slots", "frozen"):
-        # a root model object that cannot take `_tx_parser` makes every load with an object
-        # processor fail in get_location; not a case of this property
-        shape = r.choice(["plain", "own", "getattr"])
+    # ("Model" with __slots__ / frozen: the root object cannot take `_tx_parser`, so the first object
+    # processor call fails in get_location - one more failure point, see Compiler.rootless)
     sc = {"classes": classes, "shape": shape, "global": False, "loads": g.loads, "behav": g.behav,
           "tops": tops, "gc_check": True, "next_check": r.chance(0.5), "provider": provider, "libs": g.libs}
     # a metamodel-global repository only without callback-started loads (they would share it)
-    if not any(isinstance(a, list) for a in g.behav.values()) and r.chance(0.35 if provider == "importuri" else 0.6):
+    nested = any(isinstance(a, list) for a in g.behav.values())
+    if not nested and r.chance(0.35 if provider == "importuri" else 0.6):
         sc["global"] = True
+    elif nested and r.chance(0.12):
+        # loads started from callbacks that SHARE the metamodel-global repository with the running
+        # load: textX lets the inner load resolve, end or abort the outer load's models, the outer load
+        # then usually dies of an internal error.  The machine does not describe that interference;
+        # such scenarios are run for the property oracles only (C14/C15 must hold all the same)
+        sc["global"] = True
+        sc["oracle_only"] = True
     return sc
 
 
@@ -152,6 +158,9 @@ class Compiler:
         self.libs = sc.get("libs", []) if sc.get("provider", "importuri") != "importuri" else []
         self.repo_provider = sc.get("provider", "importuri") != "importuri"
         self.cached = set()       # files that stay in the metamodel-global repository (successful loads)
+        # a user root-model class that cannot store `_tx_parser`: get_location raises at the first
+        # object processor call of every load
+        self.rootless = "Model" in self.user and sc["shape"] in ("slots", "frozen")
 
     def op(self, o):
         self.ops.append(o)
@@ -265,6 +274,9 @@ class Compiler:
                     return False
         for f in files:
             for it in f["items"]:
+                if self.rootless:
+                    self.op("Fail")
+                    return False
                 act = b.get("proc:" + it["name"])
                 if act == "boom":
                     self.op("Proc false")
@@ -597,7 +609,10 @@ def run_cases(chk, cases, tag):
         o = obs[id(sc)]
         model = parse_model(mv, no_classes=not sc["classes"]) if mv is not None else None
         dis = None
-        if model is not None:
+        if model is not None and sc.get("oracle_only"):
+            if "harness_error" in o:
+                dis = "runner failed: " + o["harness_error"][-400:]
+        elif model is not None:
             dis = compare(sc, o, model, tops_ok, info)
             if dis is None and (model["dict"] != SHAPE_SHOW[sc["shape"]] or model["saved"] != "None,None,None,None"):
                 dis = "model ends with methods %s / saved %s" % (model["dict"], model["saved"])
@@ -606,7 +621,7 @@ def run_cases(chk, cases, tag):
 
 
 def describe(sc):
-    return {"classes": sc["classes"], "shape": sc["shape"], "global": sc["global"], "tops": sc["tops"], "loads": sc["loads"], "behav": sc["behav"],
+    return {"classes": sc["classes"], "shape": sc["shape"], "global": sc["global"], "oracle_only": sc.get("oracle_only", False), "tops": sc["tops"], "loads": sc["loads"], "behav": sc["behav"],
             "provider": sc.get("provider", "importuri"), "libs": sc.get("libs", [])}
 
 
@@ -619,6 +634,8 @@ def scenario_stats(chk, sc, obs, tops_ok, info, ops):
     if sc["global"]:
         chk.stat("global repository")
     chk.stat("provider:" + sc.get("provider", "importuri"))
+    if sc.get("oracle_only"):
+        chk.stat("oracle only (callback-started load sharing the global repository)")
     for l in sc["loads"].values():
         chk.stat("main from:" + l.get("how", "file"))
     nfiles = sum(len(all_files_of_load(sc, l)) for l in sc["loads"])
